@@ -1,4 +1,5 @@
 from .C08 import WS_TB
+from .common import WSFRAME_TB
 
 PROP = {
         "id": "C15",
@@ -12,6 +13,12 @@ PROP = {
             "Sonic.Props.C15.C15_too_big",
             "Sonic.Props.C15.isViolation_iff",
             "Sonic.Props.C15.C15_no_panic",
+            # tie T: the frame header logic regenerated from frame.go / rfc6455.go / util/bytes.go (Props/WsFrameTie.lean)
+            "Sonic.Props.C15.C15_tie_opcode_reserved",
+            "Sonic.Props.C15.C15_tie_opcode_control",
+            "Sonic.Props.C15.C15_tie_opcode_table",
+            "Sonic.Props.C15.C15_tie_control_payload_limit",
+            "Sonic.Props.C15.C15_tie_valid_close_code",
         ],
         "runs": [{
             "component": "wsstream",
@@ -33,7 +40,7 @@ PROP = {
                 "sequence of 3-5 events over a 15-event alphabet of violations, fragments and message reads; non-trivial/distinct as in C08; plus the "
                 "byte-level decoder component of C07 (`wsdecode`: declared lengths in every header form relative to the maximum, incl. 2^32, 2^62, "
                 "2^63-1, 2^63, 2^63+k, 2^64-1) for the clause that a frame larger than the maximum is refused (keys wsdecode.bounded/frame/panic)",
-        "trusted_base": WS_TB,
+        "trusted_base": WS_TB + WSFRAME_TB,
         "assumptions": [
             "OpsOk: the application writes text/binary messages and does not send Close frames itself through WriteFrame/Write",
             "frame granularity: 'under every segmentation' is discharged by C07 (decoder is segmentation independent); here one frame "
@@ -48,7 +55,8 @@ PROP = {
                       "yet, and makes Write/WriteFrame/Close fail afterwards; continuation with nothing to continue and a new data frame "
                       "inside a fragmented message give ErrUnexpectedContinuation/ErrExpectedContinuation from the message API; frames "
                       "over the maximum and messages over the maximum or the caller's buffer are errors; no call panics. Partial in that "
-                      "the model is hand-written (tied to the source by the differential trace check) and segmentation is delegated to C07.",
+                      "the model is hand-written (tied to the source by the differential trace check) and segmentation is delegated to C07."
+                      " Tie T (regenerated from the source on every run, Sonic/Gen/WsFrameBits.lean): Opcode.IsReserved and Opcode.IsControl with the source's opcode constants are proved equal to the model's isReserved / isControl for all 256 byte values (reserved = 3-7, 11-15; control = 8, 9, 10), MaxControlFramePayloadLength = 125, and ValidCloseCode with the source's close-code constants equal to the specification's validCloseCode for all 65536 codes; the header bits the violations are read from (RSV1-3, opcode, mask, FIN) are covered by C07_tie_header_accessors. Still hand-written and tied only by traces: verifyFrame / handleFrame / handleControlFrame / the message assembly of stream.go (Model/WsStream.lean).",
         "design_ref": "5/C15",
         "level_note": "Trusted: Lean kernel; the hand-written model (validated on every run against the real Stream); frame decoder "
                       "abstracted as 'next frame or decode error' (C07).",
